@@ -16,8 +16,8 @@ authored content, i.e. the spec side).
    code by the correspondence run (`known_findings/C02.json`) and in the model below / in C03:
    * `Page::draw_image` does not flush the pending text buffer: an image drawn after text is
      emitted BEFORE that text (`C02_witness_image_after_text`);
-   * `use_xref_streams` with `compress_streams = false` declares `/Filter /FlateDecode` over raw
-     cross-reference data (`C03_witness_filter_over_raw_xref_data`, every document);
+   * (repaired in /repo 67304722) `use_xref_streams` with `compress_streams = false` declared
+     `/Filter /FlateDecode` over raw cross-reference data (C03-F1, every document);
    * `use_object_streams` with a classic table leaves every non-stream object without an entry
      (`C03_witness_classic_objstm_unreachable`, every document).
 
